@@ -111,7 +111,21 @@ func Main() {
 		for i := 0; i < k; i++ {
 			id++
 			wg.Add(1)
-			switch hook.Choose(5) {
+			switch hook.Choose(6) {
+			case 5:
+				// the handler is created on a goroutine started by compiled code
+				regNew = append(regNew, id)
+				me := id
+				hook.GoCall(func() {
+					h := func() {
+						r := recover()
+						hook.Ev("handler", me, r)
+					}
+					hook.Lock(&hmu)
+					handlers[me%64] = h
+					hook.Unlock(&hmu)
+					wg.Done()
+				})
 			case 3:
 				regNew = append(regNew, id)
 				go register(hook.Spawn(), id, &wg)
